@@ -46,6 +46,14 @@ func ActionFileCheck(conf *ActionFile) error {
 		return errors.New("no Cmd")
 	}
 
+	if conf.Quality == nil {
+		return errors.New("no Quality")
+	}
+
+	if conf.FlushSize == nil {
+		return errors.New("no FlushSize")
+	}
+
 	switch *conf.Cmd {
 	case ActionGzip:
 		if *conf.Quality < gzip.HuffmanOnly || *conf.Quality > gzip.BestCompression {
